@@ -141,6 +141,19 @@ chk("C09",
     "machine-checked proof in Coq (trace semantics over an abstract generator) + static call-site extraction/trace correspondence",
     "DESIGN.md section 6, C09")
 
+chk("C13",
+    "Coq theorems: for every permutation of the indexed task list (any completion order of a worker pool), "
+    "index-ordered assembly equals map f xs; all three evaluation strategies return the same values given a pointwise "
+    "identical vectorised likelihood; for every sequence of warm-up and MCMC iterations with any step counts the call "
+    "counter equals its initial value plus the number of rows passed to the likelihood. Tie: Gen.Dispatch (branch "
+    "structure of _log_like, one likelihood call per batch, increments) + Link; the same seeded run under scalar / "
+    "vectorised / in-order / reversed / shuffled pool-like evaluation compared bit for bit, an instrumented "
+    "likelihood compared with the reported calls (also after every iteration of a manual loop).",
+    "Trusted: Coq kernel/vm_compute; python extractor/harness; real process pools covered only as 'any completion "
+    "order with index-ordered assembly'.",
+    "machine-checked proof in Coq (permutation invariance of slot assembly; counter induction) + structure extraction/bit-exact run comparison",
+    "DESIGN.md section 6, C13")
+
 for pid in [f"C{i:02d}" for i in range(1, 21)]:
     if pid not in CHECKS:
         NA[pid] = "check not built yet in this session (planned in DESIGN.md section 6); not claimed"
